@@ -227,7 +227,11 @@ def bv_allow(thm, ax):
 
 def run(ctx):
     rng = vlib.Rng(ctx.seed)
-    ctx.prove(['Librfn.Props.C14'], REQUIRED, allow_extra_axioms=bv_allow)
+    import regen
+    for u, e in regen.regen(['Wav']):          # tie T: rf_wavheader_get_format regenerated from wavheader.c
+        ctx.broken.append(f'tie T: tools/c2lean.py cannot translate unit {u}: {e}')
+    tie_ok = lambda t, a: bv_allow(t, a) or (t in ('Librfn.C13.get_format_generated', 'Librfn.C13.get_format_tie') and a.startswith('Librfn.C13.get_format_generated._native.bv_decide.ax_'))
+    ctx.prove(['Librfn.Props.C14', 'Librfn.Props.C13Tie'], REQUIRED + ['Librfn.C13.get_format_tie'], allow_extra_axioms=tie_ok)
     exe = harness(ctx)
     q = ctx.tier == 'quick'
     hs = pw.corpus('C14')
